@@ -343,6 +343,42 @@ the machine:
 the client's EOF (pinned by `C09Facts`)? -/
 def tunnelHandlersTouchSocketOptions : Bool := false
 
+
+/-! ## The connection wrapper of `tcp.Server` (`server.go`, type `conn`): per-call deadlines
+
+With a listener write timeout `wt > 0` every `Write` first arms the deadline `now + wt` and then writes; the
+write fails iff it is still blocked when the deadline in force passes. Time is in ticks; a write is (`t` = when it
+is issued, `d` = how long the peer makes it block). `Read` is the same with `rt`. `C09Facts` pins the shape
+(`Write: SetWriteDeadline(now+recv.WriteTimeout) if recv.WriteTimeout > 0`), the class `*-timeouts` of `c09.tunnel`
+runs it. `lazy` is the arming rule of seeded change m10 (re-arm only when more than `wt/4` has passed since the
+value remembered — which is the deadline itself), kept as the counter-model. -/
+
+inductive Arming where
+  | everyCall
+  | lazy
+deriving Repr, BEq, DecidableEq
+
+structure ConnW where
+  deadline : Option Nat := none   -- write deadline in force
+  last : Nat := 0                 -- `lazy`: the remembered time (0 = the zero time)
+deriving Repr, BEq, DecidableEq
+
+/-- One `Write` issued at `t` that blocks for `d` ticks: (succeeded, state). -/
+def ConnW.write (a : Arming) (wt : Nat) (c : ConnW) (t d : Nat) : Bool × ConnW :=
+  let c' : ConnW :=
+    if wt = 0 then c
+    else match a with
+      | .everyCall => { c with deadline := some (t + wt) }
+      | .lazy => if t - c.last > wt / 4 then { deadline := some (t + wt), last := t + wt } else c
+  (match c'.deadline with
+   | none => true
+   | some dl => t + d < dl, c')
+
+/-- A sequence of writes `(t, d)`; the results. -/
+def ConnW.writes (a : Arming) (wt : Nat) : ConnW → List (Nat × Nat) → List Bool
+  | _, [] => []
+  | c, (t, d) :: r => let (ok, c') := c.write a wt t d; ok :: ConnW.writes a wt c' r
+
 /-! ## The two-direction tunnel as a state machine -/
 
 /-- How the proxy reacts when one copy direction finishes.
